@@ -419,9 +419,83 @@ func c01run(w *report.W) {
 			c01explore(w, in, kind+"#0", d, sigInitials)
 		}
 	}
+	c01laxSigners(w)
 	if w.Shard == 0 {
 		w.Sample(c01replay{"rich", "EdDSA#0", []string{"step:seq-swap[0,1]@.plugins", "step:seq-swap[0,1]@.plugins"}})
 		w.Sample(c01replay{"rich", "EdDSA#0", []string{"step:map-key-value-boundary[image]@.plugins[0].docker#v1"}})
+	}
+}
+
+// c01laxSF signs like a command step whose signer leaves one mandatory field out of the signed set.
+type c01laxSF struct {
+	inner *signature.CommandStepWithInvariants
+	omit  string
+}
+
+func (l *c01laxSF) SignedFields() (map[string]any, error) {
+	m, err := l.inner.SignedFields()
+	delete(m, l.omit)
+	return m, err
+}
+func (l *c01laxSF) ValuesForFields(f []string) (map[string]any, error) { return l.SignedFields() }
+
+// c01laxSigners: a record whose field list (as a set) lacks a mandatory field never verifies against the step,
+// however the list is padded - even when its value is a genuine signature over exactly the listed fields.
+func c01laxSigners(w *report.W) {
+	mandatory := []string{"command", "env", "plugins", "matrix", "repository_url"}
+	for _, in := range sigInitials {
+		for _, kind := range sigKinds {
+			for _, omit := range mandatory {
+				cs := fmt.Sprintf("lax signer: %s/%s signed without %q", in.Name, kind, omit)
+				if !w.Take(cs) {
+					continue
+				}
+				tree, err := sigInitialTree(in)
+				if err != nil {
+					continue
+				}
+				step, err := stepFromTree(tree)
+				if err != nil {
+					continue
+				}
+				k, _ := findKey(kind + "#0")
+				inner := sigWithInv(step, in.Repo)
+				sig, err := signature.Sign(sigCtx, k.Sign, &c01laxSF{inner, omit}, signature.WithEnv(in.Penv))
+				if err != nil {
+					w.HarnessError("lax signing: %v", err)
+					return
+				}
+				venv := map[string]string{"UNRELATED": "u"}
+				for kk, v := range in.Penv {
+					venv[kk] = v
+				}
+				for kk, v := range step.Env {
+					venv[kk] = v
+				}
+				// the record as signed, and padded with repeated / unrelated entries (in every position) so that it is as long as a complete list
+				variants := map[string][]string{"as signed": sig.SignedFields}
+				for _, pad := range append(append([]string{}, sig.SignedFields...), "env::UNRELATED") {
+					variants["padded at the end with "+pad] = append(append([]string{}, sig.SignedFields...), pad)
+					variants["padded in front with "+pad] = append([]string{pad}, sig.SignedFields...)
+					variants["padded twice with "+pad] = append(append([]string{pad}, sig.SignedFields...), pad)
+				}
+				for name, fields := range variants {
+					rec := *sig
+					rec.SignedFields = fields
+					var verr error
+					pan := report.Catch(func() { verr = signature.Verify(sigCtx, &rec, k.Verifier, inner, signature.WithEnv(venv)) })
+					w.P.Evaluations++
+					w.P.Nontrivial++
+					w.Count("lax_signer_records", 1)
+					if pan != "" {
+						w.Violate(report.Violation{Kind: "panic", Case: cs + ", field list " + name, Detail: pan, Size: 3})
+					} else if verr == nil {
+						w.Violate(report.Violation{Kind: "mandatory-field-not-enforced", Case: cs + ", field list " + name,
+							Detail: fmt.Sprintf("Verify returned nil for signed_fields %v although %q is not covered by the signature", fields, omit), Size: 3})
+					}
+				}
+			}
+		}
 	}
 }
 
@@ -473,7 +547,8 @@ func init() {
 			"rename key, key/value and item/item boundary shifts; scalar re-typing; nil/empty and short/canonical spellings; unsigned fields; env: change / remove / empty / rename each variable, add unrelated, add a variable named like the signed field command / repository_url carrying the signed value, move variables " +
 			"between step env and pipeline env; repository URL; record: 8 algorithm names, drop / rename each field, add env:: or unknown fields, corrupt / truncate / strip / splice the value, splice whole records; key: second key " +
 			"of the same kind and kid, keys of the other kinds); depth 2 with EdDSA (includes mutate-then-revert and neutral-then-semantic; thorough: depth 3 from two small initial states), depth 1 (thorough: partly 2) with ES512, PS512 and an ES256 crypto.Signer. " +
-			"Invariant in every state: Verify == nil <=> harness canonical form == signed form and record original and key the signing key. States deduplicated on the full state; non-trivial = every mutated state.",
+			"Invariant in every state: Verify == nil <=> harness canonical form == signed form and record original and key the signing key. States deduplicated on the full state; non-trivial = every mutated state. " +
+			"Lax signers: for every initial state x key kind x mandatory field, a genuine signature made over all fields but that one (custom SignedFielder), with the field list as signed and padded with repeated or unrelated entries in front / at the end / both: Verify against the step must fail.",
 		Assumptions: []string{
 			"cryptography is a black box that accepts exactly what it signed",
 			"field-list permutation/duplication and base64 padding-bit variants of the value are not generated (not semantic changes)",
